@@ -123,15 +123,28 @@ def ref_problems(lib, refs):
     byid = {d["id"]: d for d in lib}
     for d in lib:
         o = d.get("twin_of")
-        if not o or d["id"] in unusable or o in unusable:
+        if not o:
             continue
         if any(h["desc"]["id"] in (o, d["id"]) for h in hs_viol):
             continue
-        full = refs[o][REF_HASHSEEDS[0]]["renders"]
-        last = refs[d["id"]][REF_HASHSEEDS[0]]["renders"]
-        if full and last and full[-1].get("digest") != last[-1].get("digest"):
+        fo, ft = refs[o][REF_HASHSEEDS[0]], refs[d["id"]][REF_HASHSEEDS[0]]
+        full, last = fo["renders"], ft["renders"]
+        if not full or not last:
+            continue
+        # a failing step other than a rendering makes both scripts library problems
+        nonrender_fail = any(out.startswith("exc:") and st["s"] not in ("render", "to_code", "cli_render", "export")
+                             for dd, ff in ((byid[o], fo), (d, ft)) for st, out in zip(dd["steps"], ff["steps"]))
+        if nonrender_fail:
+            continue
+        a = full[-1].get("digest") or "raised " + str(full[-1].get("exc"))
+        b = last[-1].get("digest") or "raised " + str(last[-1].get("exc"))
+        if a != b:
+            files = diff_files(full[-1], last[-1]) if "digest" in full[-1] and "digest" in last[-1] else \
+                [f"with the earlier renderings: {a[:60]}; without them: {b[:60]}"]
             hs_viol.append({"desc": byid[o], "twin": d, "render": len(full) - 1, "clause": "prior-render-influences-later-render",
-                            "files": diff_files(full[-1], last[-1])})
+                            "files": files})
+            unusable.pop(o, None)
+            unusable.pop(d["id"], None)
     return unusable, hs_viol
 
 
@@ -556,6 +569,51 @@ def _report_task(task):
 
 
 # --------------------------------------------------------------------------
+# simulation zygotes: fresh interpreters, one PYTHONHASHSEED each
+# --------------------------------------------------------------------------
+SIM_ZYGOTES = 8
+
+
+def sim_hashseeds(seed):
+    return [str(1 + K.hash64(seed, PROP, "sim-hash-seed", z) % 4294967290) for z in range(SIM_ZYGOTES)]
+
+
+def run_zygotes(payload, jobs, scratch, timeout):
+    """jobs: {hash seed: job dict}. Runs each job in a fresh interpreter under that hash seed."""
+    import pickle
+
+    d = os.path.join(scratch, "c17-zyg")
+    os.makedirs(d, exist_ok=True)
+    pj = os.path.join(d, "payload.pickle")
+    pickle.dump(payload, open(pj, "wb"))
+    procs = []
+    per = max(1, K.workers() // max(1, len(jobs)))
+    for n, (hs, job) in enumerate(sorted(jobs.items())):
+        tj, oj = os.path.join(d, f"job{n}.pickle"), os.path.join(d, f"out{n}.pickle")
+        pickle.dump(job, open(tj, "wb"))
+        if os.path.exists(oj):
+            os.remove(oj)
+        env = dict(os.environ, PYTHONHASHSEED=hs, NAUNET_REPO=K.REPO, VERIF_WORKERS=str(per))
+        procs.append((hs, oj, subprocess.Popen([sys.executable, os.path.join(K.VERIF, "sim", "c17_simworker.py"), pj, tj, oj],
+                                               stdout=subprocess.PIPE, stderr=subprocess.PIPE, text=True, env=env)))
+    outs = {}
+    for hs, oj, p in procs:
+        try:
+            so, se = p.communicate(timeout=timeout)
+        except subprocess.TimeoutExpired:
+            p.kill()
+            raise K.HarnessError(f"simulation zygote (hash seed {hs}) exceeded {timeout}s")
+        if p.returncode != 0 or not os.path.exists(oj):
+            raise K.HarnessError(f"simulation zygote (hash seed {hs}) failed: rc={p.returncode}\n{se[-3000:]}")
+        kind, val = pickle.load(open(oj, "rb"))
+        if kind != "ok":
+            raise K.HarnessError(f"simulation zygote (hash seed {hs}): {val}")
+        outs[hs] = val
+    shutil.rmtree(d, ignore_errors=True)
+    return outs
+
+
+# --------------------------------------------------------------------------
 # batch
 # --------------------------------------------------------------------------
 _G = {}
@@ -589,7 +647,8 @@ def _worker(task):
         stats["interleavings"].add(K.hash64(st["interleave"]))
         digests.append(r["digest"])
         if r["violation"]:
-            viols.append({"index": index, "trace": r["trace"], "violation": r["violation"]})
+            viols.append({"index": index, "trace": r["trace"], "violation": r["violation"],
+                          "hashseed": os.environ.get("PYTHONHASHSEED")})
         if not samples and index % 40 == 0:
             samples.append({"sessions": plan["sessions"], "events": r["trace"]["events"][:30]})
     shutil.rmtree(base, ignore_errors=True)
@@ -607,7 +666,7 @@ def main(argv):
     refs = build_references(lib, scratch)
     unusable, hs_viol = ref_problems(lib, refs)
     ref_s = timer.s()
-    if len([u for u in unusable if not u.startswith("rnd-")]) > 6 or len(unusable) > len(lib) * 0.5:
+    if not hs_viol and (len([u for u in unusable if not u.startswith("rnd-")]) > 6 or len(unusable) > len(lib) * 0.5):
         raise K.HarnessError(f"too many unusable descriptions: {unusable}")
     usable = [d for d in lib if d["id"] not in unusable and not d.get("twin_of")
               and not any(h["desc"]["id"] == d["id"] for h in hs_viol)]
@@ -615,14 +674,30 @@ def main(argv):
         usable = [d for d in lib if d["id"] not in unusable and not d.get("twin_of")]
     lib_by_id = {d["id"]: d for d in usable}
     fam_of = {d["id"]: d["family"] for d in usable}
+    census = {}
+    for d in usable:
+        for f in c17_lib.features(d):
+            census[f] = census.get(f, 0) + 1
+    missing = [f for f in c17_lib.ESSENTIAL_FEATURES if census.get(f, 0) < (1 if f != "two_grain_charge_states" else 2)]
+    # (reported in the evidence: the reach of this check is the diversity of its library)
     nruns = {"quick": 320, "thorough": 40000}[tier]
     if os.environ.get("C17_RUNS"):
         nruns = int(os.environ["C17_RUNS"])
     chunk = int(os.environ.get("C17_CHUNK", "2"))
     tasks = [(i, min(i + chunk, nruns)) for i in range(0, nruns, chunk)]
-    _G.update(seed=seed, tier=tier, scratch=scratch, lib_by_id=lib_by_id, refs=refs, fam_of=fam_of)
+    G = dict(seed=seed, tier=tier, scratch=scratch, lib_by_id=lib_by_id, refs=refs, fam_of=fam_of)
+    _G.update(G)
     budget = {"quick": 200, "thorough": 3300}[tier]
-    parts = K.pool_map(_worker, tasks, deadline=timer.t0 + budget, watchdog=900)
+    hseeds = sim_hashseeds(seed)
+    payload = {"G": G, "lib": lib, "deadline": timer.t0 + budget}
+    jobs = {hs: {"mode": "runs", "tasks": [t for j, t in enumerate(tasks) if j % SIM_ZYGOTES == z]} for z, hs in enumerate(hseeds)}
+    jobs = {hs: j for hs, j in jobs.items() if j["tasks"]}
+    outs = run_zygotes(payload, jobs, scratch, timeout=budget + 1500)
+    parts = [None] * len(tasks)
+    for z, hs in enumerate(hseeds):
+        mine = [j for j in range(len(tasks)) if j % SIM_ZYGOTES == z]
+        for j, part in zip(mine, outs.get(hs, [])):
+            parts[j] = part
     done = [p for p in parts if p is not None]
     skipped = len(parts) - len(done)
     tot = {"runs": 0, "renders": 0, "steps": 0, "faults": {}, "clock_jumps": 0, "month_cross": 0, "year_cross": 0,
@@ -640,8 +715,32 @@ def main(argv):
     batch_digest = K.digest([p["digest"] for p in done])
 
     exit_code, replays, known_lines, out_lines = K.pool_map(
-        _report_task, [(viols, hs_viol, lib_by_id, lib, refs, seed, scratch)], nworkers=1, watchdog=3000, force_pool=True)[0]
-    for ln in out_lines + known_lines:
+        _report_task, [([], hs_viol, lib_by_id, lib, refs, seed, scratch)], nworkers=1, watchdog=3000, force_pool=True)[0]
+    by_hs = {}
+    for v in viols:
+        by_hs.setdefault(v["hashseed"], []).append(v)
+    # one representative per (clause, victim family) over all hash seeds, minimised under its own seed
+    seen_sig, jobs2, nrep = set(), {}, len(replays)
+    for hs in sorted(by_hs):
+        keep = []
+        for v in sorted(by_hs[hs], key=lambda x: x["index"]):
+            sig = (v["violation"]["clause"], lib_by_id[v["violation"]["desc"]]["family"])
+            if sig not in seen_sig and len(seen_sig) < 12:
+                seen_sig.add(sig)
+                keep.append(v)
+        if keep:
+            jobs2[hs] = {"mode": "report", "viols": keep, "first_replay": nrep}
+            nrep += len(keep)
+    if jobs2:
+        outs2 = run_zygotes(payload, jobs2, scratch, timeout=3000)
+        for hs in sorted(outs2):
+            ec, rp, kl, ol = outs2[hs]
+            replays += rp
+            known_lines += kl
+            out_lines += ol
+            if ec == K.EXIT_VIOLATION or (ec == K.EXIT_HARNESS and exit_code == K.EXIT_OK):
+                exit_code = ec
+    for ln in out_lines + sorted(set(known_lines)):
         print(ln)
     wall = timer.s()
     families = sorted(set(fam_of.values()))
@@ -666,7 +765,9 @@ def main(argv):
         "library_usable": len(usable),
         "library_unusable": unusable,
         "families": families,
-        "hash_seeds": {"references": REF_HASHSEEDS, "workers": os.environ.get("PYTHONHASHSEED")},
+        "library_feature_census": dict(sorted(census.items())),
+        "library_missing_essential_features": missing,
+        "hash_seeds": {"references": REF_HASHSEEDS, "simulation_zygotes": hseeds, "checker": os.environ.get("PYTHONHASHSEED")},
         "hash_seed_disagreements": len(hs_viol),
         "faults_fired": tot["faults"],
         "fault_free_runs": tot["faultfree_runs"],
@@ -696,26 +797,26 @@ def main(argv):
     return exit_code
 
 
-def report(viols, hs_viol, lib_by_id, lib, refs, seed, scratch):
+def report(viols, hs_viol, lib_by_id, lib, refs, seed, scratch, first_replay=0):
     known = K.load_known_findings(PROP)
     out = []
     exit_code = K.EXIT_OK
     replays, known_hit, seen = [], {}, set()
-    rundir = os.path.join(scratch, "c17-min")
+    rundir = os.path.join(scratch, f"c17-min-{os.getpid()}")
     solo_seen = set()
     for h in hs_viol:
         if (h["clause"], h["desc"]["family"]) in solo_seen or len(solo_seen) >= 8:
             continue
         solo_seen.add((h["clause"], h["desc"]["family"]))
         doc = {"kind": "hashseed", "seed": seed, "clause": h["clause"], "desc": h["desc"], "files": h["files"]}
-        path = K.write_replay(PROP, seed, len(replays), doc)
+        path = K.write_replay(PROP, seed, first_replay + len(replays), doc)
         replays.append(path)
         if h["clause"] == "hash-seed-dependence":
             out.append(f"violated clause: hash-seed-dependence: {h['desc']['id']} alone renders differently under PYTHONHASHSEED "
                   f"{' and '.join(h.get('seeds', REF_HASHSEEDS[:2]))} in {h['files'][:5]}")
         elif h["clause"] == "prior-render-influences-later-render":
             doc["twin"] = h["twin"]
-            K.write_replay(PROP, seed, len(replays) - 1, doc)
+            K.write_replay(PROP, seed, first_replay + len(replays) - 1, doc)
             out.append(f"violated clause: prior-render-influences-later-render: {h['desc']['id']} alone: its last rendering differs from "
                        f"the same script with the earlier render/to_code/export steps left out, in {h['files'][:5]}")
         else:
@@ -733,7 +834,7 @@ def report(viols, hs_viol, lib_by_id, lib, refs, seed, scratch):
         t = minimise(v["trace"], vi["clause"], vi["desc"], lib_by_id, refs, rundir)
         if t is None:
             out.append(f"HARNESS: violation {sig} (run {v['index']}) did not reproduce from its recorded trace")
-            exit_code = K.EXIT_HARNESS
+            exit_code = K.EXIT_HARNESS if exit_code == K.EXIT_OK else exit_code
             continue
         r = execute_isolated(t, lib_by_id, refs, rundir)
         vv = r["violation"]
@@ -749,14 +850,13 @@ def report(viols, hs_viol, lib_by_id, lib, refs, seed, scratch):
             continue
         ids = sorted(set(t["sessions"]))
         doc = {"kind": "interleaving", "seed": seed, "index": v["index"], "clause": vi["clause"], "detail": vv["detail"],
-               "trace": t, "descriptions": [lib_by_id[i] for i in ids]}
-        path = K.write_replay(PROP, seed, len(replays), doc)
+               "trace": t, "descriptions": [lib_by_id[i] for i in ids], "hashseed": os.environ.get("PYTHONHASHSEED")}
+        path = K.write_replay(PROP, seed, first_replay + len(replays), doc)
         replays.append(path)
         out.append(f"violated clause: {vi['clause']} (run index {v['index']}, victim family {fam}): {vv['detail'][:500]}")
         out.append(f"  minimised schedule: sessions={t['sessions']} events=" + json.dumps(t["events"])[:700])
         out.append(f"VIOLATION property={PROP} replay={path}")
-        if exit_code == K.EXIT_OK:
-            exit_code = K.EXIT_VIOLATION
+        exit_code = K.EXIT_VIOLATION  # a demonstrated violation outranks a harness problem elsewhere
     lines = [f"KNOWN-FINDING: property={PROP} {e['what']} [{fid}; {n} minimised schedules in this run]"
              for fid, (e, n) in sorted(known_hit.items())]
     return exit_code, replays, lines, out
